@@ -8,7 +8,8 @@ if [ -n "$(git -C /repo status --porcelain)" ]; then echo "/repo is dirty"; exit
 for S in "$@"; do
   D=/verif/seeded/$S
   c=${S%%-*}
-  git -C /repo apply $D/patch.diff || { echo "$S: PATCH DOES NOT APPLY"; git -C /repo checkout -- .; continue; }
+  P=$D/patch.diff; [ -f $D/patch.rebased.diff ] && P=$D/patch.rebased.diff   # a seed ported to the current tree after later fixes
+  git -C /repo apply $P || { echo "$S: PATCH DOES NOT APPLY"; git -C /repo checkout -- .; continue; }
   ./check $c quick > /tmp/reseed-$S-$c.txt 2>&1; rc=$?
   git -C /repo checkout -- .
   if [ $rc -eq 1 ]; then echo "$S: $c detects ($(grep -c '^VIOLATION' /tmp/reseed-$S-$c.txt) violations, $(grep '^VIOLATION' /tmp/reseed-$S-$c.txt | grep -vc no-failing-input-found) with witness)"; else echo "$S: $c MISSES (exit $rc)"; fi
